@@ -95,7 +95,7 @@ func main() {
 }
 
 func c13(c *Ctx) {
-	c.Rule = "fault enumeration in a child process built with the delay overlay: scenarios close-idle / close-early (before the join completes) / close-queued (3..7 commands, the terminal goes after 1-2 were written) / close-outstanding / rst-outstanding / close-afterresp / close-timer (close within +-4 ms of the timer expiry) / notmo (no timeout, released by the disconnect) / mixed / burst, 1..8 callers, timeouts 60-600 ms, under 6 delay configurations (seeded Gosched only at 30 / 60 % of the instrumented sites, sleeps up to 0.2 / 0.5 / 1 / 3 ms at 30 / 20 / 15 / 12 %) and, for each of the instrumented sites in turn, with that site alone always delaying 2.5 ms; a case is non-trivial when at least one call was made and the terminal went away; distinct = distinct recorded histories"
+	c.Rule = "fault enumeration in a child process built with the delay overlay: scenarios close-idle / close-early (before the join completes) / close-queued (3..7 commands, the terminal goes after 1-2 were written) / close-outstanding / rst-outstanding / close-afterresp / close-timer (close within +-4 ms of the timer expiry) / notmo (no timeout, released by the disconnect) / mixed / burst / flood-close (30..400 heartbeats in one segment, then close or RST after 1-3 replies or 0.1-8 ms) / default0 (OverTimeDuration 0, silent terminal), 1..8 callers, timeouts 60-600 ms, under 6 delay configurations (seeded Gosched only at 30 / 60 % of the instrumented sites, sleeps up to 0.2 / 0.5 / 1 / 3 ms at 30 / 20 / 15 / 12 %) and, for each of the instrumented sites in turn, with that site alone always delaying 2.5 ms; a case is non-trivial when at least one call was made and the terminal went away; distinct = distinct recorded histories"
 	for _, o := range oldSchedules {
 		c.Do(o[0], false)
 	}
@@ -105,7 +105,7 @@ func c13(c *Ctx) {
 		return
 	}
 	kinds := []string{"close-idle", "close-early", "close-queued", "close-queued", "close-outstanding", "rst-outstanding",
-		"close-afterresp", "close-timer", "close-timer", "notmo", "mixed", "burst"}
+		"close-afterresp", "close-timer", "close-timer", "notmo", "mixed", "burst", "flood-close", "flood-close"}
 	cfgs := []DelayCfg{{Seed: int(c.Seed), US: 0, P: 30}, {Seed: int(c.Seed) + 1, US: 200, P: 30}, {Seed: int(c.Seed) + 2, US: 1000, P: 15},
 		{Seed: int(c.Seed) + 3, US: 3000, P: 12}, {Seed: int(c.Seed) + 4, US: 0, P: 60}, {Seed: int(c.Seed) + 5, US: 500, P: 20}}
 	per := 16
@@ -128,6 +128,11 @@ func c13(c *Ctx) {
 				jobs = append(jobs, fmt.Sprintf("scn %s %d", k, c.Rng.Int63n(90000000)))
 			}
 		}
+		if len(results) < 2 || !c.Quick() { // OverTimeDuration 0 (3 s default) on a silent terminal: 3 s each, alongside the rest
+			for j := 0; j < 2; j++ {
+				jobs = append(jobs, fmt.Sprintf("scn default0 %d", c.Rng.Int63n(90000000)))
+			}
+		}
 		results = append(results, &br{d: d, jobs: jobs})
 	}
 	// targeted: one site at a time always delays by 2.5 ms (the window between a check and the action it
@@ -135,7 +140,7 @@ func c13(c *Ctx) {
 	sites := DelaySites()
 	c.Extra["delay_sites"] = len(sites)
 	tk := []string{"close-timer", "close-timer", "close-timer", "close-timer", "close-timer", "close-timer",
-		"close-outstanding", "close-queued", "close-queued", "close-afterresp", "rst-outstanding", "notmo"}
+		"close-outstanding", "close-queued", "close-queued", "close-afterresp", "rst-outstanding", "notmo", "flood-close", "flood-close"}
 	reps := 1
 	if !c.Quick() {
 		reps = 24
@@ -194,7 +199,7 @@ func c13(c *Ctx) {
 				c.Violate(Violation{Signature: "C13/" + v.Sig, What: v.What, Input: input,
 					Observed: v.Observed + " | " + o.Desc + " | " + o.Req, Required: v.Required})
 			}
-			if strings.Contains(o.Req, "/") {
+			if strings.HasPrefix(o.Req, "wexp ") {
 				c.Case(o.Req, "exp ok", o.N > 0 && strings.Contains(o.Req, "T/x/"))
 			}
 		}
